@@ -27,6 +27,8 @@ SRC = {
     "bqcount": [P + "block_quotes/block_quote_count_helper.py"],
     "regenleaf": [P + "transform_markdown/transform_to_markdown.py", P + "transform_markdown/markdown_transform_context.py", P + "tokens/*.py",
                   P + "general/parser_helper.py", P + "extensions/front_matter_markdown_token.py", P + "extensions/pragma_token.py"],
+    "liststarts": [P + "list_blocks/list_block_starts_helper.py", P + "list_blocks/list_block_pre_list_helper.py", P + "list_blocks/list_block_can_close_helper.py",
+                   P + "general/tab_helper.py", P + "general/parser_helper.py", P + "tokens/stack_token.py"],
     "inlineloop": [P + "inline/inline_processor.py", P + "inline/inline_text_block_helper.py", P + "inline/inline_line_end_helper.py",
                    P + "inline/inline_handler_helper.py", P + "inline/inline_request.py", P + "inline/inline_response.py", P + "inline/inline_helper.py",
                    P + "inline/inline_backslash_helper.py", P + "inline/inline_backtick_helper.py", P + "inline/inline_character_reference_helper.py",
@@ -193,4 +195,22 @@ def regenleaf(ctx):
                                   "F-RT-EMAIL-NEWLINE, F-RT-EMPTY-TITLE, F-RT-INPUTS (each reproduced by the model: stream-level witnesses in Verif.Props.RegenLeaf); decided at "
                                   "document level by C02's own round-trip oracle and its listed inputs")
     _store(ctx, "regenleaf", cov, t0)
+    return cov
+
+
+def liststarts(ctx):
+    """Faithful model of list-item start recognition for an ARBITRARY stack (list_block_starts_helper, list_block_pre_list_helper,
+    list_block_can_close_helper incl. the close_open_blocks pop) vs the real functions on real stack / token objects (Verif.Props.ListStarts)."""
+    import liststartslib
+    t0 = time.time()
+    cov = dict(liststartslib.run(ctx, ctx.block_quick(SRC["liststarts"])))
+    dis, fail = cov.pop("disagreements"), cov.pop("failing_inputs")
+    for d in (dis[:3] + fail[:2]):
+        case = {"doc": d["doc"]} if isinstance(d, dict) and d.get("doc") is not None else {"liststarts_request": {k: d.get(k) for k in ("line", "index", "stack", "fn") if isinstance(d, dict) and k in d}}
+        ctx.report(case, "liststarts-disagreement" if d in dis else "liststarts-spec",
+                   {"detail": {k: str(v)[:400] for k, v in d.items()} if isinstance(d, dict) else str(d)[:800],
+                    "oracle": "real is_ulist_start / is_olist_start / pre_list / can_close on real stack tokens == Verif.Model.ListStarts; start verdict == the CommonMark "
+                              "marker sentence outside the classes the *_partial theorems exclude"})
+    cov["disagreements"], cov["spec_departures_outside_excluded_classes"] = len(dis), len(fail)
+    _store(ctx, "liststarts", cov, t0)
     return cov
